@@ -18,20 +18,24 @@
    no key; both are "not a validator" (0) and the certificate must be rejected, not crash the verifier.
 
    List form (C05): a commit vote list is a sequence of items in any order, built by AppendItem.
-   Vector form (C29): a proof has one slot per validator; Add(part) stores the part at the index the
-   part claims, overwriting the slot. *)
+   Vector form (C29): a proof is a vector of slots; Add(part) stores the part at the index the part
+   claims, overwriting the slot.  A proof made by the context (NewProof) has one slot per validator, but
+   a proof decoded from bytes (NewProofFromBytes) has whatever WIDTH the sender chose: fewer slots than
+   validators, as many, or more.  The property counts against the validators of the CONTEXT: more than
+   two thirds of n, each at its own index; a filled slot beyond the validator list belongs to nobody. *)
 EXTENDS Integers, Sequences, FiniteSets, TLC
 CONSTANTS MaxN,        \* validator set sizes 1..MaxN
           Whats,       \* kinds of signed content in use, "ok" included
           MaxExtra,    \* a list has at most n + MaxExtra items
-          Ops          \* enabled forms, subset of {"list", "vector"}
+          Ops,         \* enabled forms, subset of {"list", "vector"}
+          MaxOver      \* a proof vector has 0..n+MaxOver slots
 
 None == [who |-> -1, what |-> "none"]
 Sig(n) == [who : 0..n, what : Whats]
 
 VARIABLES n,       \* size of the validator set designated by the parent
           cert,    \* list form: Seq(Sig(n))
-          proof,   \* vector form: [1..n -> Sig(n) \cup {None}]
+          proof,   \* vector form: Seq(Sig(n) \cup {None}) of any width 0..n+MaxOver
           done,    \* the behaviour has ended with a verification
           hist
 vars == <<n, cert, proof, done, hist>>
@@ -58,17 +62,19 @@ PartRes(nn, idx, s) ==
   ELSE IF Recovered(s) = idx THEN "ok"
   ELSE IF Recovered(s) # 0 THEN "wrongindex" ELSE "notvalidator"
 
-\* Verify: every filled slot must verify at its own index; more than 2n/3 filled slots
+\* Verify: every filled slot of the proof (whatever its width) must verify at its own index; the verified
+\* slots must be more than two thirds of the validators of the context
 RECURSIVE ScanVec(_, _, _, _)
 ScanVec(nn, p, i, valid) ==
-  IF i > nn THEN (IF valid <= (2 * nn) \div 3 THEN "few" ELSE "ok")
+  IF i > Len(p) THEN (IF valid <= (2 * nn) \div 3 THEN "few" ELSE "ok")
   ELSE IF p[i] = None THEN ScanVec(nn, p, i + 1, valid)
   ELSE IF PartRes(nn, i, p[i]) # "ok" THEN PartRes(nn, i, p[i])
   ELSE ScanVec(nn, p, i + 1, valid + 1)
 VerifyProofRes(nn, p) == ScanVec(nn, p, 1, 0)
 
 -----------------------------------------------------------------------------
-Init == /\ n \in 1..MaxN /\ cert = <<>> /\ proof = [i \in 1..n |-> None]
+Widths(nn) == IF "vector" \in Ops THEN 0..(nn + MaxOver) ELSE {nn}
+Init == /\ n \in 1..MaxN /\ cert = <<>> /\ proof \in {[i \in 1..w |-> None] : w \in Widths(n)}
         /\ done = FALSE /\ hist = <<>>
 
 \* NewCommitVoteList(msgs...): one more precommit signature goes into the list
@@ -80,11 +86,12 @@ VerifyList == /\ ~done /\ done' = TRUE
               /\ hist' = Append(hist, [op |-> "verifylist", n |-> n, cert |-> cert,
                                        res |-> VerifyListRes(n, cert)])
               /\ UNCHANGED <<n, cert, proof>>
-\* BTPProof.Add(part) of a part claiming index idx
-AddPart(idx, s) == /\ ~done /\ proof' = [proof EXCEPT ![idx] = s]
+\* BTPProof.Add(part) of a part claiming index idx / slot idx of a serialized proof
+AddPart(idx, s) == /\ ~done /\ idx \in 1..Len(proof) /\ proof' = [proof EXCEPT ![idx] = s]
                    /\ UNCHANGED <<n, cert, done, hist>>
 \* BTPProofContext.VerifyPart(hash, part)
 VerifyPart(idx, s) == /\ ~done /\ done' = TRUE
+                      /\ \A i \in 1..Len(proof) : proof[i] = None     \* stateless: explored once per context
                       /\ hist' = Append(hist, [op |-> "verifypart", n |-> n, idx |-> idx, part |-> s,
                                                res |-> PartRes(n, idx, s)])
                       /\ UNCHANGED <<n, cert, proof>>
@@ -96,7 +103,7 @@ VerifyProof == /\ ~done /\ done' = TRUE
 
 Next == \/ "list" \in Ops /\ \E s \in Sig(n) : AppendItem(s)
         \/ "list" \in Ops /\ VerifyList
-        \/ "vector" \in Ops /\ \E i \in 1..n, s \in Sig(n) : AddPart(i, s)
+        \/ "vector" \in Ops /\ \E i \in 1..(n + MaxOver), s \in Sig(n) : AddPart(i, s)
         \/ "vector" \in Ops /\ \E i \in 0..(n + 1), s \in Sig(n) : VerifyPart(i, s)
         \/ "vector" \in Ops /\ VerifyProof
 Spec == Init /\ [][Next]_vars
@@ -104,7 +111,7 @@ Spec == Init /\ [][Next]_vars
 -----------------------------------------------------------------------------
 (* Properties.  The statements of C05 and C29, independent of the loops above. *)
 TypeOK == /\ n \in 1..MaxN /\ cert \in Seq(Sig(n)) /\ Len(cert) <= n + MaxExtra
-          /\ \A i \in 1..n : proof[i] \in Sig(n) \cup {None}
+          /\ Len(proof) \in Widths(n) /\ \A i \in 1..Len(proof) : proof[i] \in Sig(n) \cup {None}
 
 \* validators that really signed the target in a list
 GoodSigners(c) == {c[i].who : i \in {j \in 1..Len(c) : c[j].what = "ok" /\ c[j].who # 0}}
@@ -113,9 +120,9 @@ ListStatement(nn, c) ==
   /\ \A i, j \in 1..Len(c) : i # j => c[i].who # c[j].who            \* no duplicated signer
   /\ 3 * Len(c) > 2 * nn                                            \* more than two thirds
 \* validators whose own signature of the decision sits at their own index
-GoodSlots(nn, p) == {i \in 1..nn : p[i] # None /\ p[i].what = "ok" /\ p[i].who = i}
+GoodSlots(nn, p) == {i \in (1..nn) \cap (1..Len(p)) : p[i] # None /\ p[i].what = "ok" /\ p[i].who = i}
 ProofStatement(nn, p) ==
-  /\ \A i \in 1..nn : p[i] # None => i \in GoodSlots(nn, p)
+  /\ \A i \in 1..Len(p) : p[i] # None => i \in GoodSlots(nn, p)    \* also: nothing beyond the validator list
   /\ 3 * Cardinality(GoodSlots(nn, p)) > 2 * nn
 
 Last == hist'[Len(hist')]
@@ -134,6 +141,9 @@ ListQuorum ==
 ProofQuorum ==
   [][(Stepped /\ Last.op = "verifyproof" /\ Last.res = "ok") =>
         3 * Cardinality(GoodSlots(Last.n, Last.proof)) > 2 * Last.n]_vars
+\* the width of the proof is not evidence: a proof narrower than two thirds of the context is never accepted
+NarrowRejected ==
+  [][(Stepped /\ Last.op = "verifyproof" /\ 3 * Len(Last.proof) <= 2 * Last.n) => Last.res # "ok"]_vars
 \* why the threshold matters: any two accepted signer sets share more than n/3 validators, i.e. at least
 \* one correct validator when fewer than a third are faulty (checked on all subsets, constant level)
 QuorumIntersection ==
